@@ -22,7 +22,6 @@ A body or a layout that cannot be normalised raises `common.AnalysisBroken` (exi
 Nothing here knows a member name of the header; callers pass the names they look up.
 """
 import math
-import os
 import re
 
 from . import common
@@ -1672,10 +1671,20 @@ O2_FLAGS = ('-O2', '-DNDEBUG')
 DI_FLAGS = ('-g', '-fstandalone-debug')
 
 
+TOOLCHAIN_NOTE = ('clang 14 folds `if (std::is_constant_evaluated ())` to true in run-time code under -std=c++2b '
+                  '(libstdc++ 12 implements it with `if consteval` there); the normaliser compiles c++2b units with '
+                  '-U__cpp_if_consteval so that libstdc++ uses __builtin_is_constant_evaluated, as g++ and later clang do')
+
+
+def std_flags(std):
+    """Work-around for a clang 14 front-end bug, see TOOLCHAIN_NOTE."""
+    return ['-U__cpp_if_consteval'] if std in ('c++2b', 'c++23') else []
+
+
 def _clang_cmd(std, flags, src, out):
-    return [common.CLANGXX, '-std=' + std, '-S', '-emit-llvm', '-w', '-ferror-limit=0',
+    return [common.CLANGXX, '-std=' + std, '-S', '-emit-llvm', '-w', '-ferror-limit=2000',
             '-fno-caret-diagnostics', '-fno-color-diagnostics', '-I', common.INCLUDE] \
-        + list(flags) + [src, '-o', out]
+        + std_flags(std) + list(flags) + [src, '-o', out]
 
 
 def compile_wrappers(name, prelude, wrappers, std='c++17', flags=O2_FLAGS + DI_FLAGS):
@@ -1685,7 +1694,7 @@ def compile_wrappers(name, prelude, wrappers, std='c++17', flags=O2_FLAGS + DI_F
     An error outside every wrapper line is AnalysisBroken."""
     wrappers = list(wrappers)
     failed = {}
-    for attempt in range(3):
+    for attempt in range(4):
         live = [w for w in wrappers if w.name not in failed]
         pl = prelude.rstrip('\n').split('\n')
         lines = ['// svnorm TU %s' % name] + pl
@@ -1693,7 +1702,7 @@ def compile_wrappers(name, prelude, wrappers, std='c++17', flags=O2_FLAGS + DI_F
         for w in live:
             lines.append(w.code())
         src = '\n'.join(lines) + '\n'
-        out, rc, err = common.cached_tool(('svnorm', name, std, ' '.join(flags)),
+        out, rc, err = common.cached_tool(('svnorm', name, std, ' '.join(std_flags(std) + list(flags))),
                                           lambda s, o: _clang_cmd(std, flags, s, o), '.ll', src_text=src)
         if rc == 0:
             with open(out) as f:
@@ -1706,6 +1715,8 @@ def compile_wrappers(name, prelude, wrappers, std='c++17', flags=O2_FLAGS + DI_F
         for ln in err.splitlines():
             m = re.match(r'^(.*?):(\d+):(\d+): (fatal error|error|note|warning): (.*)$', ln)
             if m and m.group(4) in ('error', 'fatal error'):
+                if 'too many errors emitted' in ln:
+                    continue
                 blocks.append([ln])
             elif blocks:
                 blocks[-1].append(ln)
@@ -1771,7 +1782,7 @@ def dump_layouts(name, prelude, probes, std='c++17', flags=()):
     out, rc, err = common.cached_tool(
         ('svnorm-dump', name, std, ' '.join(flags)),
         lambda s, o: [common.CLANGXX, '-std=' + std, '-fsyntax-only', '-w', '-Xclang',
-                      '-fdump-record-layouts', '-I', common.INCLUDE] + list(flags) + [s],
+                      '-fdump-record-layouts', '-I', common.INCLUDE] + std_flags(std) + list(flags) + [s],
         '.layouts', src_text=src)
     if rc != 0:
         raise AnalysisBroken('svnorm: record-layout dump TU %s does not compile: %s' % (name, err[-400:]))
